@@ -1,9 +1,130 @@
+import CoupeModel.Model.Metrics
+import CoupeModel.Model.Grid
 import CoupeModel.Driver.Util
 
 namespace Coupe.Driver.C16
-open Coupe.Driver
+open Coupe.Driver Coupe.Metrics Coupe.Grid
 
-/-- (stub; not built yet) -/
-def handle (_toks : List String) : String := "bad-op"
+/-- `<len> <x_0> … <x_{len-1}>` -/
+def takeVec {α} (f : String → Option α) : List String → Option (List α × List String)
+  | [] => none
+  | n :: rest => do
+    let n ← parseNat? n
+    takeParsed f n rest
+
+def showOpt : Option Int → String
+  | some x => toString x
+  | none => "panic(index)"
+
+def showOut : Outcome → String
+  | .val x => toString x
+  | .panicSlice => "panic(slice)"
+  | .panicIndex => "panic(index)"
+
+/-- Shape check shared with the harness (everything sprs checks except that the
+rows are sorted): the harness builds such matrices with `new_unchecked`. -/
+def wellShaped (m : Csr) : Bool :=
+  m.indptr.length ≥ 1 &&
+  (List.range m.n).all (fun v => decide (m.indptr.getD v 0 ≤ m.indptr.getD (v + 1) 0)) &&
+  decide (m.indptr.getD m.n 0 - m.offset = m.indices.length) &&
+  decide (m.indices.length = m.data.length) &&
+  m.indices.all (fun u => decide (u < m.n))
+
+/-- `f64` arithmetic of `imbalance` (Lean `Float` = C `double`). -/
+def floatArith : Arith Float where
+  zero := 0.0
+  ofInt := Float.ofInt
+  ofNat := Float.ofNat
+  sub := (· - ·)
+  div := (· / ·)
+  lt := fun a b => decide (a < b)
+  isZero := fun a => a == 0.0
+
+def joinRows (n : Nat) (f : Nat → List Nat) : String :=
+  "|".intercalate ((List.range n).map fun v => ",".intercalate ((f v).map toString))
+
+def gridLine (t : Topo) (p : List Nat) (ws : List Int) : String :=
+  let rows := latticeRows t
+  let ce :=
+    if p.length < t.len then "panic(index)" else toString (edgeCutSprsRows t.len rows p)
+  let cl :=
+    if !lambdaReadsOk t.len (fun v => (rows v).map (·.1)) p ws then "panic(index)"
+    else toString (lambdaRows t.len (fun v => (rows v).map (·.1)) p ws)
+  s!"eg={showOpt (edgeCutGeneric? t p)} lg={showOpt (lambdaGeneric? t p ws)} ce={ce} cl={cl}"
+
+def handle (toks : List String) : String :=
+  match toks with
+  | "csr" :: rest =>
+    match (do
+      let (indptr, rest) ← takeVec parseNat? rest
+      let (indices, rest) ← takeVec parseNat? rest
+      let (data, rest) ← takeVec parseInt? rest
+      let (p, rest) ← takeVec parseNat? rest
+      let (ws, rest) ← takeVec parseInt? rest
+      if rest.isEmpty then some (({ indptr, indices, data } : Csr), p, ws) else none) with
+    | none => "bad-op"
+    | some (m, p, ws) =>
+      if !wellShaped m then "bad-op" else
+      s!"eg={showOpt (edgeCutGeneric? m.topo p)} es={showOut (edgeCutSprs? {} m p)} lg={showOpt (lambdaGeneric? m.topo p ws)} ls={showOut (lambdaSprs? {} m p ws)}"
+  | "grid2" :: w :: h :: rest =>
+    match (do
+      let w ← parseNat? w
+      let h ← parseNat? h
+      let (p, rest) ← takeVec parseNat? rest
+      let (ws, rest) ← takeVec parseInt? rest
+      if rest.isEmpty ∧ 0 < w ∧ 0 < h then some (w, h, p, ws) else none) with
+    | none => "bad-op"
+    | some (w, h, p, ws) => gridLine (topo2 w h) p ws
+  | "grid3" :: w :: h :: d :: rest =>
+    match (do
+      let w ← parseNat? w
+      let h ← parseNat? h
+      let d ← parseNat? d
+      let (p, rest) ← takeVec parseNat? rest
+      let (ws, rest) ← takeVec parseInt? rest
+      if rest.isEmpty ∧ 0 < w ∧ 0 < h ∧ 0 < d then some (w, h, d, p, ws) else none) with
+    | none => "bad-op"
+    | some (w, h, d, p, ws) => gridLine (topo3 w h d) p ws
+  | ["nbrs2", w, h] =>
+    match parseNat? w, parseNat? h with
+    | some w, some h =>
+      if w = 0 ∨ h = 0 then "bad-op" else
+      let pos := " ".intercalate ((List.range (w * h)).map fun i =>
+        let q := positionOf2 w i
+        s!"{q.1},{q.2}:{indexOf2 w q}")
+      s!"n={w * h} nb={joinRows (w * h) (neighbors2 w h)} pos={pos}"
+    | _, _ => "bad-op"
+  | ["nbrs3", w, h, d] =>
+    match parseNat? w, parseNat? h, parseNat? d with
+    | some w, some h, some d =>
+      if w = 0 ∨ h = 0 ∨ d = 0 then "bad-op" else
+      let pos := " ".intercalate ((List.range (w * h * d)).map fun i =>
+        let q := positionOf3 w h i
+        s!"{q.1},{q.2.1},{q.2.2}:{indexOf3 w h q}")
+      s!"n={w * h * d} nb={joinRows (w * h * d) (neighbors3 w h d)} pos={pos}"
+    | _, _, _ => "bad-op"
+  | "imb" :: k :: rest =>
+    match (do
+      let k ← parseNat? k
+      let (p, rest) ← takeVec parseNat? rest
+      let (ws, rest) ← takeVec parseInt? rest
+      let (ts, rest) ← takeVec parseInt? rest
+      if rest.isEmpty then some (k, p, ws, ts) else none) with
+    | none => "bad-op"
+    | some (k, p, ws, ts) =>
+      let loads := match computePartsLoad? p k ws with
+        | some l => "[" ++ joinInts l ++ "]"
+        | none => "panic(assert)"
+      let mx := match maxImbalance? k p ws with
+        | some x => toString x
+        | none => "panic(assert)"
+      let imb := match imbalanceWith floatArith k p ws with
+        | some x => toHex x.toBits.toNat
+        | none => "panic(assert)"
+      let tgt := match imbalanceTarget? ts p ws with
+        | some x => toString x
+        | none => "panic(assert)"
+      s!"loads={loads} max={mx} imb={imb} tgt={tgt}"
+  | _ => "bad-op"
 
 end Coupe.Driver.C16
